@@ -484,6 +484,42 @@ impl<E: Effect> Executor<E> {
         true
     }
 
+    /// Release the values a finished process can never use again. Its result stays (it is what
+    /// awaiters and `GetResult` read); everything else it still roots is garbage that would
+    /// otherwise stay counted and reachable for the life of the worker: operands left on the stack
+    /// beneath the result (a tail call inside a tuple field abandons the fields built so far; an
+    /// error exit abandons the whole stack), and - for a process that is not persistent, so can
+    /// never be resumed - its locals (kept by an error exit), unreceived messages, and the select
+    /// state and awaited results of a select that an error cut short. A persistent process keeps
+    /// its locals (the REPL's bindings) and its mailbox.
+    fn release_dead_roots(&mut self, pid: ProcessId) {
+        let Some(process) = self.get_process_mut(pid) else {
+            return;
+        };
+        let mut dead: Vec<Value> = std::mem::take(&mut process.stack);
+        if !process.persistent {
+            dead.append(&mut process.locals);
+            dead.extend(process.mailbox.drain(..));
+            // (the select state goes as a whole: its `unanswered` targets go with it, so a late
+            // answer - `mark_answered` looks at the current state only - finds nothing to update)
+            if let Some(state) = process.select_state.take() {
+                dead.extend(state.sources);
+                dead.extend(state.receiving.map(|(_, message)| message));
+            }
+            let mut stored: Vec<(ProcessId, Value)> = process
+                .awaiting
+                .drain()
+                .filter_map(|(target, value)| value.map(|value| (target, value)))
+                .collect();
+            stored.sort_by_key(|(target, _)| *target);
+            dead.extend(stored.into_iter().map(|(_, value)| value));
+            process.awaiting_failed.clear();
+        }
+        for value in &dead {
+            self.release(value);
+        }
+    }
+
     /// Validate the reference-count invariant against the tracing oracle: every heap slot must
     /// have a positive count exactly when it is reachable from a root ([`reachable_heap_indices`]).
     /// Returns the first violating slot, so it doubles as a debug assertion (the wiring is
@@ -895,10 +931,18 @@ impl<E: Effect> Executor<E> {
         message: Value,
         heap: Vec<Vec<u8>>,
     ) -> Result<(), Error> {
-        // Inject heap data into the message value
-        let injected_message = self.inject_heap_data(message, &heap)?;
+        // A message for a process that is unknown here, or that has finished and cannot be resumed,
+        // can never be received: drop it before its heap data is copied in (the copies would be
+        // slots nobody references - or, for a finished process, a mailbox nobody reads).
+        let deliverable = self.get_process(id).is_some_and(|p| match &p.result {
+            None => true,
+            Some(Ok(_)) => p.persistent,
+            Some(Err(_)) => false,
+        });
 
-        if self.get_process(id).is_some() {
+        if deliverable {
+            // Inject heap data into the message value
+            let injected_message = self.inject_heap_data(message, &heap)?;
             self.retain(&injected_message);
             self.get_process_mut(id)
                 .unwrap()
@@ -1309,6 +1353,7 @@ impl<E: Effect> Executor<E> {
                         // Stack underflow - process finished with no result on stack
                         process.result = Some(Err(Error::StackUnderflow));
                         self.exited.push(current_pid);
+                        self.release_dead_roots(current_pid);
                         return (true, None); // Did work but hit error
                     };
                     process.result = Some(Ok(result.clone()));
@@ -1359,6 +1404,10 @@ impl<E: Effect> Executor<E> {
                     }
                 }
             }
+
+            // The process will never run again (or, if persistent, not on this stack): drop what
+            // it left behind so the storage can be reclaimed.
+            self.release_dead_roots(current_pid);
 
             // Validate the refcount invariant at this quiescent point (debug only) — the
             // worker/concurrency-path counterpart of the check in `execute_bytecode_sync`. This
